@@ -21,13 +21,15 @@ CONSTANTS
   AutoCkpt = TRUE
   Infos <- Infos2
   Info0 <- Info11
-  EndCauses = {"socket", "ok"}
+  EndCauses = {"socket", "statechanged", "ok"}
   Hold = FALSE
   AllowClose = FALSE
   Rollbacks = FALSE
   FailSaves = FALSE
   Focus = FALSE
   Record = FALSE
+  Marking = FALSE
+  WindAt = 0
   Gaps = {}
   Bugs = {"F5"}
 VIEW view
